@@ -91,8 +91,11 @@ func loadProgram(pkgDirs []string) (*loaded, error) {
 }
 
 func importPath(pkgDir string) string {
-	if strings.Contains(pkgDir, ".") && !strings.HasPrefix(pkgDir, "pkg/") && !strings.HasPrefix(pkgDir, "internal/") {
-		return pkgDir // external import path given verbatim
+	if st, err := os.Stat(filepath.Join(repoDir, pkgDir)); err == nil && st.IsDir() {
+		return modulePath + "/" + pkgDir
 	}
-	return modulePath + "/" + pkgDir
+	if strings.HasPrefix(pkgDir, "internal/verif") {
+		return modulePath + "/" + pkgDir // virtual overlay package
+	}
+	return pkgDir // standard library or third-party import path given verbatim
 }
